@@ -38,6 +38,15 @@ class C15Name(SerializableEnum):
     EMPTY = ""
 
 
+class C15Swap(SerializableEnum):
+    """str values that are also member names (of OTHER members, of the member itself, in another case)"""
+    UP = "DOWN"
+    DOWN = "UP"
+    SAME = "SAME"
+    LEFT = "right"
+    RIGHT = "left"
+
+
 class C15Inner(Serializable):
     n: int = 0
     s: str = ""
@@ -63,10 +72,11 @@ VALUES = {
     C15Mode: [C15Mode.OFF, C15Mode.ON, C15Mode.AUTO],
     C15Level: [C15Level.LOW, C15Level.HIGH],
     C15Name: [C15Name.A, C15Name.B, C15Name.EMPTY],
+    C15Swap: [C15Swap.UP, C15Swap.DOWN, C15Swap.SAME, C15Swap.LEFT, C15Swap.RIGHT],
     C15Inner: [C15Inner(), C15Inner(n=-5, s="日本"), C15Inner(n=2 ** 63 - 1, s="x")],
 }
-BASIC = [int, float, str, bool, C15Mode, C15Level, C15Name]
-KEYS = [int, str, C15Mode, C15Name]
+BASIC = [int, float, str, bool, C15Mode, C15Level, C15Name, C15Swap]
+KEYS = [int, str, C15Mode, C15Name, C15Swap]
 
 
 def tname(t):
